@@ -14,4 +14,4 @@ for c in $checks; do
   elif [ $rc -ne 0 ]; then echo "== $c rc=$rc (harness error)"; echo "$out" | tail -5 | cut -c1-300; fi
 done
 echo "DETECTED BY:${det:- none}"
-rm -rf "$d" replays/found
+rm -rf "$d"
